@@ -6,6 +6,7 @@ import (
 	"verif/harness/props/c01"
 	"verif/harness/props/c02"
 	"verif/harness/props/c03"
+	"verif/harness/props/c04"
 	"verif/harness/props/c05"
 	"verif/harness/props/c06"
 	"verif/harness/props/c17"
@@ -18,6 +19,7 @@ func Specs() map[string]*core.Spec {
 		c01.Spec(),
 		c02.Spec(),
 		c03.Spec(),
+		c04.Spec(),
 		c05.Spec(),
 		c06.Spec(),
 		c17.Spec(),
